@@ -25,6 +25,7 @@ import Proofs.OpGuardSbtWalk
 import Proofs.OpGuardB
 import Proofs.FitDeleteNorm
 import Proofs.GapTailFits
+import Proofs.GapBackAligned
 import PM.OpGuardNode
 import Props.C01
 import Props.C12
@@ -590,18 +591,10 @@ theorem replaceAround_undo_partial (S : Schema) (doc doc' doc'' : Node) (f t gf 
    built; putting the gap back rebuilds the old child list, which is valid content of its node, so the fit check of the
    inverse passes by itself (`gapFitsBack_of_valid`, Proofs/GapBack.lean) and **`replaceAround_undo_aligned`** below
    needs no fit guard — only, like every theorem here, a pair-alignment proviso for one more cut (`Step.gapCutAligned`
-   of the inverse: Python strings cannot be cut inside a surrogate pair, the model's unit lists can).
+   of the inverse, Proofs/GapBackAligned.lean: Python strings cannot be cut inside a surrogate pair, the model's unit lists can).
    `replaceAround_undo` (with `hfit`) is kept: it is the instance for callers that hold `gapFitsBack`.
    `replaceAround_undo_text_gap` is the former counterexample, now undone.  The structure checks `hst` stay a
    hypothesis (two `content_between` evaluations on `doc'`). -/
-
-/-- the cut `insert_at` makes in the slice of a replace-around step, at its insertion point, does not separate a
-    surrogate pair (for the inverse of a step: where `remove_range` joined two text nodes around the gap, the seam of
-    the joined text is cut again; a lone high surrogate before the gap and a lone low one behind it would meet
-    there — impossible in a Python `str`) -/
-def _root_.PM.Step.gapCutAligned : Step → Prop
-  | .replaceAround _ _ _ _ sl ins _ => alignedAt sl.content (ins + sl.openStart) = true
-  | _ => True
 
 /-- the common core of the two undo theorems for replace-around steps: `hfit` says that putting the gap back into the
     remainder of the old slice is not refused -/
@@ -1969,11 +1962,12 @@ def FamilyInv (S : Schema) (d : Node) : Prop := S.checkNode d = true ∧ fnorm d
       payload; **`hst`** — when the structure flag is set, the two `content_between` checks of the inverse
       on `d'` find no content (the inverse inherits the flag; finding C04-structure-inverse; for a slice
       with only wrapper tokens beside the insertion point it holds: `replaceAround_hst_of_wrappers`,
-      Proofs/UndoStructure.lean); **`gapFitsBack`** — the exact fit guard of `replaceAround_undo`: the gap,
-      removed from the old slice, can be put back by `insert_at` (finding C04-around-text-gap otherwise);
-      implied by `gapClean` — the gap lies between complete children, what `lift`, `wrap`,
-      `set_node_markup` emit (`gapFitsBack_of_clean_apply`); the Fitter also emits replace-around steps
-      whose gap is not clean but fits back (measured by the tie);
+      Proofs/UndoStructure.lean); **`undoCutAligned`** — one more pair-alignment proviso, in `d`: `Step.invert` does
+      not raise and the inverse can cut the remainder of the old slice where the gap was taken out.  (Until the
+      repair of `insert_into` — finding C04-around-text-gap — the fit guard `gapFitsBack` stood here: the gap,
+      removed from the old slice, can be put back by `insert_at`.  On a valid normal-form document that *is* this
+      proviso now: `gapFitsBack_iff_aligned`; it follows from `gapFitsBack` (`undoCutAligned_of_fits`) and is void
+      for a document without text outside the BMP (`undoCutAligned_of_bmp`).)
     * add-mark / remove-mark: the exact guard of the naive inverse (`addMarkUndoable` /
       `removeMarkUndoable`; the planners' steps satisfy it: `planGuard_family`);
     * attr / doc-attr: every node carries its attributes as `compute_attrs` builds them (`attrsOk`); an
@@ -1988,7 +1982,7 @@ def FamilyGuard (S : Schema) (s : Step) (d d' : Node) : Prop :=
     C01.PayloadValid S d s ∧
     (b = true → contentBetween d' f (f + ins) = some false ∧
       contentBetween d' (f + ins + (gt - gf)) (f + sl.size.toNat + (gt - gf)) = some false) ∧
-    gapFitsBack S d f t gf gt = true ∧
+    s.undoCutAligned S d ∧
     s.undoAligned d'
   | .addMark f t m => addMarkUndoable S d f t m = true ∧ s.undoAligned d'
   | .removeMark f t m => removeMarkUndoable S d f t m = true ∧ s.undoAligned d'
@@ -2030,15 +2024,14 @@ theorem family_step (S : Schema) (htr : compatTransB S = true) (hts : TextLoop S
     exact ⟨⟨inv, hi, replace_undo_transitive S d d' f t sl b inv htr hv hn hsn h hi ha⟩,
       C01.apply_valid S (.replace f t sl b) d d' hv hp h, apply_norm S (.replace f t sl b) d d' hsn hn h⟩
   | replaceAround f t gf gt sl ins b =>
-    obtain ⟨hsn, hwf, hins, hgo, hp, hst, hfit, ha1, ha2, ha3, ha4⟩ := hg
-    obtain ⟨inv, hi⟩ := invert_ok_of_fits S d f t gf gt sl ins b hfit
+    obtain ⟨hsn, hwf, hins, hgo, hp, hst, ⟨inv, hi, hra⟩, ha1, ha2, ha3, ha4⟩ := hg
     have hj : sidesCompatibleAround S d f t gf gt sl ins = true := by
       obtain ⟨gap, inserted, hgap, _, _, hinst, hfr1⟩ := apply_replaceAround_parts S d d' f t gf gt sl ins b h
       obtain ⟨ty, a, m, K, K', rfl, rfl, hr1⟩ := fromReplace_elem S d d' f t inserted hfr1
       have := sidesCompatible_of_trans S (compatTrans_of_B S htr) ty a m K K' f t inserted hn hr1
       simpa [sidesCompatibleAround, hgap, hinst] using this
-    exact ⟨⟨inv, hi, replaceAround_undo S d d' f t gf gt sl ins b inv hv hn hsn hwf hins hgo h hi
-        hst hfit hj ⟨ha1, ha3, ha4, ha2⟩⟩,
+    exact ⟨⟨inv, hi, replaceAround_undo_aligned S d d' f t gf gt sl ins b inv hv hn hsn hwf hins hgo h hi
+        hst hj ⟨ha1, ha3, ha4, ha2⟩ hra⟩,
       C01.apply_valid S (.replaceAround f t gf gt sl ins b) d d' hv hp h,
       apply_norm S (.replaceAround f t gf gt sl ins b) d d' hsn hn h⟩
   | addMark f t m =>
@@ -2270,7 +2263,8 @@ theorem liftGuard_family (S : Schema) (d d' : Node) (a b depth target : Nat) (st
   have hclean := lift_gapClean S d d' a b depth target _ rf rt hn hab hf ht hfb htb hb h f t gf gt sl ins true rfl
   exact ⟨hsn, hwf, hins, hgo, hp,
     fun _ => replaceAround_hst_of_wrappers S d d' f t gf gt sl ins true hn hsn hwf hins hgo h hshape,
-    gapFitsBack_of_clean_apply S d d' f t gf gt sl ins true hv hn hwf hins hgo h hclean, hal⟩
+    undoCutAligned_of_fits S d f t gf gt sl ins true
+      (gapFitsBack_of_clean_apply S d d' f t gf gt sl ins true hv hn hwf hins hgo h hclean), hal⟩
 
 /-- the step `wrap` emits satisfies its `FamilyGuard` on a valid normal-form document: node range as
     `block_range` builds it, no wrapper of a leaf type; pair-alignment left.  (Payload: the wrappers with
@@ -2285,7 +2279,8 @@ theorem wrapGuard_family (S : Schema) (d d' : Node) (a b depth : Nat) (ws : List
   obtain ⟨f, t, gf, gt, sl, ins, rfl, hsn, hwf, hins, hgo, hp, hst, hclean⟩ :=
     wrap_guard_parts S d d' a b depth ws st rf rt hv hn hf ht hab hend hfb htb hl hb h
   exact ⟨hsn, hwf, hins, hgo, hp, fun _ => hst,
-    gapFitsBack_of_clean_apply S d d' f t gf gt sl ins true hv hn hwf hins hgo h hclean, hal⟩
+    undoCutAligned_of_fits S d f t gf gt sl ins true
+      (gapFitsBack_of_clean_apply S d d' f t gf gt sl ins true hv hn hwf hins hgo h hclean), hal⟩
 
 /-- the replace-around step `set_node_markup` and `set_block_type` emit for a non-leaf node (`retypeStep`:
     keep the content as the gap, put the new empty node around it) satisfies its `FamilyGuard` on a valid
@@ -2300,7 +2295,8 @@ theorem retypeGuard_family (S : Schema) (d d' node nn : Node) (pos : Nat)
     FamilyGuard S (retypeStep pos (pos + node.size) nn) d d' := by
   obtain ⟨h1, h2, h3, h4, h5, h6, h7⟩ := retype_guard_parts S d d' node nn pos hv hn hna hnl hnn h
   exact ⟨h1, h2, h3, h4, h5, fun _ => h6,
-    gapFitsBack_of_clean_apply S d d' _ _ _ _ _ 1 true hv hn h2 h3 h4 h h7, hal⟩
+    undoCutAligned_of_fits S d _ _ _ _ _ 1 true
+      (gapFitsBack_of_clean_apply S d d' _ _ _ _ _ 1 true hv hn h2 h3 h4 h h7), hal⟩
 
 /-- what `NodeType.create(attrs, None, marks)` gives for a non-leaf type -/
 theorem createNode_elem (S : Schema) (ty : TypeId) (attrs : Attrs) (ms : Marks) (nn : Node)
@@ -2390,7 +2386,7 @@ theorem structGuardB_family (S : Schema) (s : Step) (d d' : Node) (h : structGua
       rcases hst with hb' | hst
       · rw [hb] at hb'; cases hb'
       · exact hst
-    · exact hclean
+    · exact undoCutAligned_of_fits S d f t gf gt sl ins b hclean
   | addMark => simp [structGuardB, structGuardParts] at h
   | removeMark => simp [structGuardB, structGuardParts] at h
   | addNodeMark => simp [structGuardB, structGuardParts] at h
@@ -3487,7 +3483,7 @@ theorem replace_residual_partial (S : Schema) (hdet : PM.C11.detB S = true) (hfi
       have hshape := hsh _ _ _ _ _ _ _ rfl
       simp only [aroundShape, Bool.and_eq_true, decide_eq_true_eq] at hshape
       obtain ⟨⟨⟨⟨hwf, hins⟩, g1⟩, g2⟩, g3⟩ := hshape
-      exact ⟨hs.1, hwf, hins, ⟨g1, g2, g3⟩, hs.2.1, fun hb' => by simp at hb', hs.2.2, hal⟩
+      exact ⟨hs.1, hwf, hins, ⟨g1, g2, g3⟩, hs.2.1, fun hb' => by simp at hb', undoCutAligned_of_fits S _ _ _ _ _ _ _ _ hs.2.2, hal⟩
 
 /-! #### histories mixing structural edits, node-level edits and mark operations -/
 
@@ -3789,7 +3785,7 @@ theorem delete_residual_around (S : Schema) (hdet : PM.C11.detB S = true) (hfill
       simp only [aroundShape, Bool.and_eq_true, decide_eq_true_eq] at hsh
       obtain ⟨⟨⟨⟨hwf, hins⟩, g1⟩, g2⟩, g3⟩ := hsh
       obtain ⟨_, hb, _⟩ := PM.C11.delete_around_is_move S tr.doc f t hv F T G1 G2 sl ins b hr
-      refine ⟨hs.1, hwf, hins, ⟨g1, g2, g3⟩, hpv, ?_, hs.2.1, hs.2.2⟩
+      refine ⟨hs.1, hwf, hins, ⟨g1, g2, g3⟩, hpv, ?_, undoCutAligned_of_fits S _ _ _ _ _ _ _ _ hs.2.1, hs.2.2⟩
       intro hbt
       rw [hb] at hbt
       cases hbt
@@ -3858,7 +3854,7 @@ theorem insertInline_residual_around (S : Schema) (hdet : PM.C11.detB S = true) 
       simp only [aroundShape, Bool.and_eq_true, decide_eq_true_eq] at hsh
       obtain ⟨⟨⟨⟨hwf, hins⟩, g1⟩, g2⟩, g3⟩ := hsh
       obtain ⟨hb, _⟩ := PM.C11.fit_around_shape S tr.doc f t sl F T G1 G2 sl0 ins b hr
-      refine ⟨hs.1, hwf, hins, ⟨g1, g2, g3⟩, hs.2.1, ?_, hs.2.2.1, hs.2.2.2⟩
+      refine ⟨hs.1, hwf, hins, ⟨g1, g2, g3⟩, hs.2.1, ?_, undoCutAligned_of_fits S _ _ _ _ _ _ _ _ hs.2.2.1, hs.2.2.2⟩
       intro hbt
       rw [hb] at hbt
       cases hbt
@@ -4080,7 +4076,7 @@ theorem fitted_familyGuard (S : Schema) (doc doc' : Node) (f t : Nat)
         simp only [Step.sliceOf, Option.some.injEq] at hs2
         subst hs2
         exact hok.1) _ _ _ _ _ _ _ rfl
-    exact ⟨hok.1, hwf', hins, ⟨g1, g2, g3⟩, hpa, fun hb' => by simp at hb', hok.2, hal⟩
+    exact ⟨hok.1, hwf', hins, ⟨g1, g2, g3⟩, hpa, fun hb' => by simp at hb', undoCutAligned_of_fits S _ _ _ _ _ _ _ _ hok.2, hal⟩
 
 /-- the classes of `replace(from, to, slice)` requests covered: a **deletion** (`Slice.empty`); **typing /
     inserting inline leaves** (a closed slice of valid leaf / text nodes); a well-formed slice that passes the
